@@ -14,6 +14,11 @@ func (e gsm7Encoder) Transform(dst, src []byte, atEOF bool) (nDst, nSrc int, err
 	if len(src) == 0 {
 		return
 	}
+	if !atEOF {
+		// septets are packed across the whole message: wait for all of it
+		err = transform.ErrShortSrc
+		return
+	}
 	septets, err := toSeptets(string(src))
 	if err != nil {
 		return
